@@ -144,7 +144,9 @@ UNIT = {
         body_start(lits(*KEYS)),
         # R1 ghost: the dictionary as read, before entries are taken out of it
         {'rule': 'R1', 'find': 'let mut dict = Dictionary::from_primitive(p, resolve)?;',
-         'replace': 'let mut dict = Dictionary::from_primitive(p, resolve)?; let ghost d0 = dict; proof { lemma_remove6(d0@, "Length"@, "Filter"@, "DecodeParms"@, "F"@, "FFilter"@, "FDecodeParms"@); }'},
+         'replace': 'let mut dict = Dictionary::from_primitive(p, resolve)?; let ghost d0 = dict;'},
+        # R1: map extensionality for "the dictionary without the general keys" (lemma without requires: the hypothesis is the verifier's to prove)
+        {'rule': 'R1', 'find': 'Ok(StreamInfo {', 'replace': 'proof { lemma_without_keys(d0@, dict@, general_keys()); } Ok(StreamInfo {'},
         # R3: String payload of MissingEntry dropped
         {'rule': 'R3', 'find': 'PdfError::MissingEntry{ typ: "StreamInfo", field: "Length".into() }', 'replace': 'PdfError::MissingEntry{ typ: "StreamInfo" }'},
         enum_loop('filter', 'filters'),
@@ -174,6 +176,32 @@ UNIT = {
         {'rule': 'R7', 'find': 'Vec::from(data)', 'replace': 'hoist_vec_from(data)'},
         {'rule': 'R7', 'find': 'Vec::from(t!(decoder.decrypt(id, &mut data)))', 'replace': 'hoist_vec_from(t!(decoder.decrypt(id, &mut data)))'},
         {'rule': 'R7', 'find': 'Ok(data.into())', 'replace': 'Ok(hoist_into_arc(data))'},
+     ] + FILTER_LOOP + [
+        {'rule': 'R1', 'find': 'let __it =', 'replace': 'let ghost plain = data@; proof { lemma_chain_whole(filters@); } let __it ='},
+        {'rule': 'R1', 'find': 'let filter = __it[__k];', 'replace': 'let filter = __it[__k]; ' + STEP},
+     ]},
+
+  # ---- Stream::data: the public entry point
+  'Stream::data': {'kind': 'fn', 'file': STM, 'container': r'^impl<I: Object> Stream<I>$', 'name': 'data', 'props': PROPS,
+     'attrs': ['#[verifier::loop_isolation(false)]'],
+     'ensures': [
+        # data kept in the file: ALL filters of the stream dictionary, the stream's own byte range and object id go to the
+        # decoding loop (Resolve::get_data_or_decode == Storage::decode behind the stream cache)
+        ('in_file_data_all_filters_own_range', 'self.inner_data matches StreamData::Original(range, id) ==> (match resolve.decoded(id, range, self.info.filters@)'
+            ' { Some(out) => r matches Ok(o) && (*o)@ == out, None => r is Err })'),
+        # data made in memory (Stream::from_compressed): the same chain, in the same order
+        ('generated_data_chain_in_order', 'self.inner_data matches StreamData::Generated(d) ==> (match chain_decode(self.info.filters@, (*d)@)'
+            ' { Some(out) => r matches Ok(o) && (*o)@ == out, None => r is Err })'),
+     ],
+     'loops': {1: {'invariant': CHAIN_INV}},
+     'rewrites': [
+        {'rule': 'R2', 'find': 'use std::borrow::Cow;', 'replace': ''},
+        # R7: the Cow<[u8]> (borrowed from the Arc at first, owned after the first stage) is modelled by the Vec of its bytes
+        {'rule': 'R7', 'find': 'let mut data: Cow<[u8]> = (&**data).into();', 'replace': 'let mut data: Vec<u8> = hoist_arc_to_vec(data);'},
+        {'rule': 'R7', 'find': 'data = t!(decode(&data, filter), filter).into();', 'replace': 'data = t!(decode(&data, filter), filter);'},
+        {'rule': 'R7', 'find': 'Ok(data.into())', 'replace': 'Ok(hoist_into_arc(data))'},
+        # R7: Range<usize>::clone has no vstd specification
+        {'rule': 'R7', 'find': 'file_range.clone()', 'replace': 'hoist_range_clone(file_range)'},
      ] + FILTER_LOOP + [
         {'rule': 'R1', 'find': 'let __it =', 'replace': 'let ghost plain = data@; proof { lemma_chain_whole(filters@); } let __it ='},
         {'rule': 'R1', 'find': 'let filter = __it[__k];', 'replace': 'let filter = __it[__k]; ' + STEP},
